@@ -73,7 +73,8 @@ class Deep:
                 if plugin_resource:
                     default_resource = default_resource.merge(plugin_resource)
             except BaseException:
-                deep.logging.exception("Failed to process plugin resource %s", provider.name)
+                # (the plugin itself, not its name: asking a failing plugin for its name can fail too)
+                deep.logging.exception("Failed to process plugin resource %s", provider)
 
         if not default_resource.attributes.get(SERVICE_NAME, None):
             # a plugin's resource can carry an empty service name (read from a variable that is not set): that is no
@@ -106,7 +107,7 @@ class Deep:
             try:
                 plugin.shutdown()
             except BaseException:
-                deep.logging.exception("Failed to shutdown plugin %s", plugin.name)
+                deep.logging.exception("Failed to shutdown plugin %s", plugin)
         deep.logging.info("Deep is shutdown.")
         self.started = False
 
